@@ -253,6 +253,7 @@ package client
 //@ field[C15.discipline] client.RpcMultiplexer.handlers init_only contents=mutex
 //@ field[C15.discipline] client.RpcMultiplexer.rErr guarded_by mutex
 //@ field[C15.discipline] client.RpcMultiplexer.streamCounter atomic
+//@ fielddefault[C15.discipline] client.respHandler init_only
 //@ fielddefault[C15.discipline] client.clientStream init_only
 //@ field[C15.discipline] client.clientStream.header guarded_by protected.Mutex readers=client.(*clientStream).readLoop
 //@ field[C15.discipline] client.clientStream.protected.done guarded_by protected.Mutex
